@@ -5,7 +5,9 @@ D=/verif/seeded/$ID; mkdir -p $D
 cp $WT/patch.diff $D/patch.diff; cp $WT/demo.c $D/demo.c 2>/dev/null; cp $WT/NOTES.txt $D/NOTES.txt 2>/dev/null
 git -C /repo apply --check $D/patch.diff || { echo "PATCH DOES NOT APPLY to /repo HEAD"; exit 3; }
 git -C /repo apply $D/patch.diff
+cp /verif/evidence/$P.json /tmp/evidence_$P.json.keep 2>/dev/null   # the run below rewrites the evidence file with the MUTANT's result
 ( cd /verif && ./run $P ${4:-quick} ) > $D/check_output.txt 2>&1; rc=$?
 git -C /repo checkout -- .
+cp /verif/evidence/$P.json $D/evidence_with_patch.json 2>/dev/null; mv /tmp/evidence_$P.json.keep /verif/evidence/$P.json 2>/dev/null
 echo "exit=$rc" >> $D/check_output.txt
 grep -v "^PASS" $D/check_output.txt | tail -15
